@@ -10,7 +10,7 @@ import socket
 import time
 from logging import getLogger
 from queue import Queue
-from threading import Event, Thread
+from threading import Barrier, Event, Thread
 from typing import Dict, List, Optional, Set, Tuple
 
 from .socket_interface import MessageInterface, SocketInterface
@@ -39,7 +39,7 @@ class PlayerThread(Thread, MessageInterface):
 
     def __init__(self,
                  connection: socket.socket,
-                 event_sync: Event,
+                 event_sync: Barrier,
                  event_thread: Event,
                  sent_message_queues: Dict[Player, Queue],
                  received_message_queues: Dict[Player, Queue],
@@ -48,7 +48,8 @@ class PlayerThread(Thread, MessageInterface):
         """
 
         :param connection: Socket connection.
-        :param event_sync: threading.Event object for sync with main thread.
+        :param event_sync: threading.Barrier object for sync with main thread
+            and other players.
         :param event_thread: threading.Event object for connection.
         :param sent_message_queues: Queues of messages to the main thread.
         :param received_message_queues: Queues of messages from the main thread.
@@ -108,15 +109,10 @@ class PlayerThread(Thread, MessageInterface):
         logger.info('Connection is closed.')
 
     def _sync_event(self) -> None:
-        # sets my Event True, and notify the main thread that getting ready
-        self.players_event[self.player].set()
-        logger.debug('set')
-        # waits until the main thread confirms all players are ready
+        # waits until the main thread and all other players are ready.
+        # A barrier is reusable, no party can run ahead into the next sync.
         self.event_sync.wait()
         logger.debug('wait')
-        # sets (initialize) my Event False for next _sync_event
-        self.players_event[self.player].clear()
-        logger.debug('clear')
 
     def _connect(self) -> bool:
         team_name, self.player, protocol_version = \
@@ -418,13 +414,10 @@ class Server(SocketInterface):
 
     @staticmethod
     def _sync_event(players_event: Dict[Player, Event],
-                    event: Event):
-        # condition have to be already acquired.
-        for p, e in players_event.items():
-            e.wait()
-            logger.debug(f'{p.formal_name} wait')
-        event.set()
-        logger.debug('set')
+                    event: Barrier):
+        # waits until all players are ready, and releases them.
+        event.wait()
+        logger.debug('wait')
 
     @staticmethod
     def convert_vul(vul: Vul) -> str:
@@ -448,7 +441,7 @@ class Server(SocketInterface):
              dealer: Player,
              vul: Vul,
              cards: Hands,  # not changed
-             event_sync: Event) -> None:
+             event_sync: Barrier) -> None:
         for player in Player:
             self.sent_message_queues[player].put(
                 f'Board number {board_number}. '
@@ -462,7 +455,6 @@ class Server(SocketInterface):
         # wait to be ready for deal
         self._sync_event(self.players_event, event_sync)
 
-        event_sync.clear()
         # wait to be ready for cards
         self._sync_event(self.players_event, event_sync)
 
@@ -579,7 +571,7 @@ class Server(SocketInterface):
             [name is not None for _, name in team_names.items()])
 
         # Consider to use queue
-        event_sync = Event()
+        event_sync = Barrier(len(Player) + 1)  # four players and main thread
         event_thread = Event()
         while not all_connected():
             connection, _ = self._socket.accept()
@@ -644,7 +636,6 @@ class Server(SocketInterface):
                 if board_id is None:
                     board_id = str(board_number)
 
-                event_sync.clear()
                 self.deal(board_number, dealer, vul, cards, event_sync)
 
                 # TODO: Consider to deal with exception
